@@ -40,6 +40,10 @@ pub fn canonical_line(line: &str) -> String {
 }
 
 impl VcfModel {
+    pub fn text_crlf(&self) -> String {
+        self.text().replace('\n', "\r\n")
+    }
+
     pub fn text(&self) -> String {
         let mut s = self.header.clone();
         for r in &self.records {
